@@ -120,7 +120,7 @@ func lexContract(src string) ([]tok, error) {
 		}
 		if unicode.IsLetter(rune(c)) || c == '_' || c == '$' {
 			j := i
-			for j < len(src) && (unicode.IsLetter(rune(src[j])) || unicode.IsDigit(rune(src[j])) || src[j] == '_' || src[j] == '$') {
+			for j < len(src) && (unicode.IsLetter(rune(src[j])) || unicode.IsDigit(rune(src[j])) || src[j] == '_' || src[j] == '$' || (src[j] == '@' && c == '$')) {
 				j++
 			}
 			word := src[i:j]
